@@ -390,13 +390,14 @@ def drainSlots (c : Conn) (replyOf : Reply) (consOf : CMsg) : Conn × Option Err
         -- the drain iterator is dropped: every remaining slot is dropped unnotified
         let c' := (s :: rest.map (·.2)).foldl dropSlotEnds c
         ({ c' with nondet := c'.nondet || decide (all.length > 1) }, some e)
-      match sendReply c s.lid replyOf with
-      | (c1, some e) => fail c1 e
+      -- (consumers first, then the channel's caller: fix D15)
+      match notifyConsumers consOf c s.consumers with
+      | (c1, some e) =>
+        let c3 := (s :: rest.map (·.2)).foldl dropSlotEnds c1
+        ({ c3 with nondet := c3.nondet || decide (all.length > 1 || s.consumers.length > 1) }, some e)
       | (c1, none) =>
-        match notifyConsumers consOf c1 s.consumers with
-        | (c2, some e) =>
-          let c3 := (s :: rest.map (·.2)).foldl dropSlotEnds c2
-          ({ c3 with nondet := c3.nondet || decide (all.length > 1 || s.consumers.length > 1) }, some e)
+        match sendReply c1 s.lid replyOf with
+        | (c2, some e) => fail c2 e
         | (c2, none) => go (dropSlotEnds c2 s) rest
   go c0 all
 
@@ -466,13 +467,14 @@ def processChannelMethod (c : Conn) (n cls mid : Nat) (fields : List Field) (dbg
   | 20, 40, [.nat code, .bytes text] =>
       withSlot fun slot =>
         let c1 := removeSlot c n
-        match sendReply c1 slot.lid (.err (.serverClosedChannel n code text)) with
-        | (c2, some e) => (dropSlotEnds c2 slot, some e)
+        -- (consumers first, then the channel's caller: fix D15)
+        match notifyConsumers (.serverClosedChannel n code text) c1 slot.consumers with
+        | (c2, some e) =>
+          let c4 := dropSlotEnds c2 slot
+          ({ c4 with nondet := c4.nondet || decide (slot.consumers.length > 1) }, some e)
         | (c2, none) =>
-          match notifyConsumers (.serverClosedChannel n code text) c2 slot.consumers with
-          | (c3, some e) =>
-            let c4 := dropSlotEnds c3 slot
-            ({ c4 with nondet := c4.nondet || decide (slot.consumers.length > 1) }, some e)
+          match sendReply c2 slot.lid (.err (.serverClosedChannel n code text)) with
+          | (c3, some e) => (dropSlotEnds c3 slot, some e)
           | (c3, none) => (dropSlotEnds (pushOut c3 (channelCloseOk n)) slot, none)
   -- server ack for a client-initiated channel close
   | 20, 41, _ =>
@@ -521,15 +523,17 @@ def processChannelMethod (c : Conn) (n cls mid : Nat) (fields : List Field) (dbg
       withSlot fun slot =>
         let consumer := lookupB tag slot.consumers
         let c1 := setSlot c n { slot with consumers := eraseB tag slot.consumers }
-        match sendReply c1 slot.lid (.method 60 31 [.bytes tag]) with
-        | (c2, some e) => ((match consumer with | some q => dropConsTx c2 q | none => c2), some e)
-        | (c2, none) =>
+        -- (the consumer first, then the caller of the cancel: fix D15)
+        let r : Conn × Option Err :=
           match consumer with
           | some qid =>
-            match sendCons c2 qid .clientCancelled with
-            | (c3, some e) => (dropConsTx c3 qid, some e)
-            | (c3, none) => (dropConsTx c3 qid, none)
-          | none => (c2, none)
+            match sendCons c1 qid .clientCancelled with
+            | (c2, some e) => (dropConsTx c2 qid, some e)
+            | (c2, none) => (dropConsTx c2 qid, none)
+          | none => (c1, none)
+        match r with
+        | (c2, some e) => (c2, some e)
+        | (c2, none) => sendReply c2 slot.lid (.method 60 31 [.bytes tag])
   -- deliver / return / get-ok open a content message
   | 60, 60, [.bytes tag, .nat dtag, .bool red, .bytes ex, .bytes rk] =>
       withSlot fun slot => afterCollect c n slot (collectMethod slot.coll (.deliver tag dtag red ex rk))
